@@ -803,3 +803,21 @@ pub fn poll_transmit_gates_native(mode: u8) -> u32 {
         }
     }
 }
+
+/// Native replay body for the E2 slice query `e2_on_packet_acked_slice` (C12): acknowledging a packet
+/// removes exactly its bytes from bytes-in-flight, whether or not it was ack-eliciting.
+pub fn on_packet_acked_native(eliciting: bool) -> u32 {
+    let mut conn = mk_established(false);
+    let t0 = crate::verif::mk_instant(50, 0).unwrap();
+    let now = crate::verif::mk_instant(51, 0).unwrap();
+    let mk = |size: u16| SentPacket { path_generation: 0, time_sent: t0, size, ack_eliciting: eliciting, largest_acked: None, retransmits: ThinRetransmits::default(), stream_frames: Default::default() };
+    let (a, b) = (mk(700), mk(500));
+    paths::in_flight_insert(&mut conn.path, &a);
+    paths::in_flight_insert(&mut conn.path, &b);
+    assert!(paths::in_flight_bytes(&conn.path) == 1200);
+    conn.on_packet_acked(now, a);
+    assert!(paths::in_flight_bytes(&conn.path) == 500, "acknowledged packet still (or doubly) accounted: {} bytes in flight", paths::in_flight_bytes(&conn.path));
+    conn.on_packet_acked(now, b);
+    assert!(paths::in_flight_bytes(&conn.path) == 0, "bytes in flight do not return to zero");
+    1
+}
